@@ -29,7 +29,7 @@ Qed.
 
 Lemma is_temp_low K x : is_temp K x -> 1 <= x mod 2 ^ 192 <= K.
 Proof.
-  intros (ep & lm & c & t & Bc & S & ->). apply sample_some in S as [Hc ->]. rewrite mk_id_bytes_low by exact Hc. exact Bc.
+  intros (ep0 & lm & c & t & Bc & S & ->). apply sample_some in S as [Hc ->]. rewrite mk_id_bytes_low by exact Hc. exact Bc.
 Qed.
 
 (* executable sufficient condition *)
